@@ -169,7 +169,10 @@ def check_targets(run, tbl, be, label):
         try:
             cur = [c for c in tbl if c.dtype().is_int()]
             old = None
+            anc = set(id(n) for n in tbl._ast.iter_subtree_preorder())
             for ot in OLDER:
+                if id(ot._ast) not in anc:
+                    continue  # only true ancestors of `tbl` qualify
                 for oc in ot:
                     if oc.dtype().is_int() and oc in tbl and ot._ast is not tbl._ast:
                         old = oc
